@@ -57,14 +57,28 @@ def run(name, tier='quick'):
     d = os.path.join(VERIF, 'seeded', name)
     meta = json.load(open(os.path.join(d, 'meta.json')))
     pid = meta['property']
-    assert sh('git -C %s status --porcelain' % REPO)[1].strip() == '', 'repo not clean'
-    rc, out = sh('git -C %s apply %s' % (REPO, os.path.join(d, 'patch.diff')))
-    assert rc == 0, out
     t0 = time.time()
-    try:
-        rc, out = sh('/venv/bin/python check.py %s %s' % (pid, tier), cwd=VERIF, timeout=7200)
-    finally:
-        sh('git -C %s checkout -- .' % REPO)
+    if os.environ.get('SEED_SCRATCH') == '1':
+        # leave /repo alone (something else may be reading it): patch a scratch worktree and point the check at it
+        wt = '/tmp/seed/runwt-%s' % name
+        sh('git -C %s worktree remove --force %s' % (REPO, wt))
+        rc, out = sh('git -C %s worktree add -f %s HEAD' % (REPO, wt))
+        assert rc == 0, out
+        try:
+            rc, out = sh('git -C %s apply %s' % (wt, os.path.join(d, 'patch.diff')))
+            assert rc == 0, out
+            rc, out = sh('/venv/bin/python check.py %s %s' % (pid, tier), cwd=VERIF, timeout=7200, env=dict(os.environ, VERIF_REPO=wt))
+        finally:
+            sh('git -C %s worktree remove --force %s' % (REPO, wt))
+            sh('git -C %s checkout -- evidence/%s.json' % (VERIF, pid))       # the evidence of a mutated run is not kept
+    else:
+        assert sh('git -C %s status --porcelain' % REPO)[1].strip() == '', 'repo not clean'
+        rc, out = sh('git -C %s apply %s' % (REPO, os.path.join(d, 'patch.diff')))
+        assert rc == 0, out
+        try:
+            rc, out = sh('/venv/bin/python check.py %s %s' % (pid, tier), cwd=VERIF, timeout=7200)
+        finally:
+            sh('git -C %s checkout -- .' % REPO)
     lines = [l for l in out.splitlines() if l.startswith('VIOLATION')]
     meta.setdefault('detection', {})[tier] = {'rc': rc, 'violation_lines': lines[:3], 'detected': rc == 1 and bool(lines),
                                               'with_input': any('no-failing-input-found' not in l for l in lines), 'secs': round(time.time() - t0)}
